@@ -180,6 +180,84 @@ def run(ctx):
     from checks import c03_refusal
 
     c03_refusal.run(ctx, prog, S, M, T, hints)
+    _r38(ctx, prog, M)
+
+
+def _r38(ctx, prog, M):
+    """An lxml element has one parent: inserting an element that is kept somewhere else (a class attribute or a module global holding
+    a parsed default sub-tree) moves it out of wherever it was inserted before, leaving that parent without a child its content
+    model may require.  Every inserted element must be made for the insertion (parsed / created in the call, or a deep copy)."""
+    ctx.rule("R3.8", "an element is never inserted from a store that outlives the call (class attribute / module global) without a copy")
+    from sa import paths as P_
+    from sa.inline import resolve_callee
+
+    INS = ("append", "insert", "addnext", "addprevious", "insert_element_before", "extend")
+    nsites = 0
+
+    def shared_source(e, f, depth=0):
+        """description of a long-lived store `e` reads an element from, or None"""
+        if depth > 3 or e is None:
+            return None
+        if isinstance(e, ast.Call) and (dotted(e.func) or "").split(".")[-1] in ("deepcopy", "copy", "parse_xml", "OxmlElement", "parse_from_template",
+                                                                                "fromstring", "SubElement"):
+            return None
+        if isinstance(e, ast.Call) and dotted(e.func) == "cast" and len(e.args) == 2:
+            return shared_source(e.args[1], f, depth)
+        if isinstance(e, ast.Attribute) and isinstance(e.value, ast.Name) and f.cls is not None:
+            owner = None
+            if e.value.id in ("cls", "self"):
+                owner = f.cls
+            else:
+                r = prog.resolve(f.module, e.value.id)
+                owner = r if hasattr(r, "methods") and hasattr(r, "attrs") else None
+            if owner is not None and prog.lookup(owner, e.attr) is None:
+                a = prog.lookup_attr(owner, e.attr)
+                declared = any(d.prop == e.attr or e.attr == d.prop + "_lst" for k in prog.mro(owner) if M.is_oxml_class(k) or k is owner
+                               for d in (M.own_decls(k)[0] + M.own_decls(k)[1]) ) if M.is_oxml_class(owner) else False
+                assigned_on_cls = any(isinstance(n, ast.Assign) and any(isinstance(t, ast.Attribute) and t.attr == e.attr and dotted(t.value) in (
+                    "cls", owner.name) for t in n.targets) for g in owner.methods.values() for n in ast.walk(g.node))
+                if (a is not None and not declared and e.value.id in ("cls", owner.name)) or assigned_on_cls:
+                    return "%s.%s (a class attribute: one object for every call)" % (owner.name, e.attr)
+        if isinstance(e, ast.Name):
+            v = P_.value_aliases(f.node).get(e.id)
+            if v is not None:
+                return shared_source(v, f, depth + 1)
+            g = f.module.assigns.get(e.id)
+            if g is not None and not any(isinstance(x, ast.Name) and x.id == e.id and isinstance(x.ctx, ast.Store) for x in ast.walk(f.node)) \
+                    and isinstance(g, ast.Call) and (dotted(g.func) or "").split(".")[-1] in ("parse_xml", "OxmlElement", "parse_from_template"):
+                return "module global %s (parsed once at import)" % e.id
+            return None
+        if isinstance(e, ast.Call):
+            try:
+                rc = resolve_callee(prog, f, e, {})
+            except Exception:  # noqa: BLE001
+                rc = None
+            g = rc[0] if rc is not None and hasattr(rc[0], "node") and hasattr(rc[0], "module") else None
+            if g is not None and g is not f:
+                for r_ in [x for x in ast.walk(g.node) if isinstance(x, ast.Return) and x.value is not None]:
+                    s_ = shared_source(r_.value, g, depth + 1)
+                    if s_:
+                        return s_ + " via %s()" % g.name
+        return None
+
+    for f in prog.all_functions():
+        if not f.module.name.startswith("pptx.oxml") or f.module.name == "pptx.oxml.xmlchemy":
+            continue
+        for n in ast.walk(f.node):
+            if not (isinstance(n, ast.Call) and isinstance(n.func, ast.Attribute)):
+                continue
+            a = n.func.attr
+            if not (a in INS or a.startswith("_insert_")) or not n.args:
+                continue
+            arg = n.args[1] if a == "insert" and len(n.args) > 1 else n.args[0]
+            nsites += 1
+            src = shared_source(arg, f)
+            if src:
+                ctx.violation("R3.8", "%s@%s" % (f.qualname, a), "%s(%s) inserts an element taken from %s: inserting it a second time moves it out of "
+                              "the parent it was given first, which is left without that child" % (a, ast.unparse(arg)[:40], src),
+                              file=f.file, line=n.lineno)
+    ctx.count("insertion_sites", nsites)
+    ctx.ok("R3.8", "insertion sites", sample={"sites": nsites, "inserted_from_a_long_lived_store": 0})
 
 
 def _discount_completed(prog, M, T, S, sink, root, probs, hints):
